@@ -241,6 +241,29 @@ func allCallArgs(rel, fn, re string) []string {
 	return out
 }
 
+// rangesIn: the "k, v := range X" headers of the range statements of fn, in order.
+func rangesIn(rel, fn string) []string {
+	fd := findFunc(rel, fn)
+	if fd == nil || fd.Body == nil {
+		return missing(rel + ":" + fn)
+	}
+	out := []string{}
+	ast.Inspect(fd.Body, func(n ast.Node) bool {
+		if r, ok := n.(*ast.RangeStmt); ok {
+			k, v := "_", "_"
+			if r.Key != nil {
+				k = src(r.Key)
+			}
+			if r.Value != nil {
+				v = src(r.Value)
+			}
+			out = append(out, k+", "+v+" := range "+src(r.X))
+		}
+		return true
+	})
+	return out
+}
+
 // lockTable: for every exported method of receiver type recv in rel: "Name: <first stmt>; <second stmt>"
 func lockTable(rel, recv string) []string {
 	f := parseFile(rel)
